@@ -113,8 +113,19 @@ func (x *accx) expr(e ast.Expr) string {
 			return fmt.Sprintf("(.shl %d %s %s)", x.width(t.X), a, b)
 		case token.SHR:
 			return fmt.Sprintf("(.shr %s %s)", a, b)
+		case token.AND_NOT:
+			// a &^ b  =  a & (b ^ all-ones) at the width of the expression
+			if w > 0 && w <= 64 {
+				return fmt.Sprintf("(.and %s (.xor %s (.const %d)))", a, b, uint64(1)<<uint(w)-1)
+			}
 		}
 		return x.fail("operator %s", t.Op)
+	case *ast.UnaryExpr:
+		// ^x: bitwise complement at the width of the expression
+		if w := x.width(t); t.Op == token.XOR && w > 0 && w <= 64 {
+			return fmt.Sprintf("(.xor %s (.const %d))", x.expr(t.X), uint64(1)<<uint(w)-1)
+		}
+		return x.fail("unary operator %s", t.Op)
 	case *ast.CallExpr:
 		if ftv, ok := x.p.Info.Types[t.Fun]; ok && ftv.IsType() && len(t.Args) == 1 {
 			w := uintWidth(ftv.Type)
